@@ -1,6 +1,7 @@
 CONSTANTS
   Kernel = "tri"
   Classes <- TriClasses
+  SumInSpec = TRUE
   Export = TRUE
 INIT Init
 NEXT Next
